@@ -101,6 +101,9 @@ HIST_CONFIGS: typing.Dict[str, typing.Dict[str, typing.Any]] = {
     "noaffix": {"stropping_prefix": "", "stropping_suffix": ""},
     # the stropped form needs encoding again (the final encoding re-check refuses)
     "encaffix": {"stropping_prefix": "-", "stropping_suffix": "-"},
+    # ... and when only the END of the stropped form needs encoding (a re-check anchored at the start misses it)
+    "encsuffix": {"stropping_suffix": "-"},
+    "encsuffix2": {"stropping_prefix": "", "stropping_suffix": " x"},
 }
 ALL_CONFIGS: typing.Dict[str, typing.Dict[str, typing.Any]] = {**CONFIGS, **HIST_CONFIGS}
 # configurations that must make at least one of REFUSAL_CANDIDATES refuse in every language (vacuity guard)
